@@ -16,6 +16,11 @@
 (*     ReadLimited / Probe   unknown length: read at most `limit` bytes, then try to read one more *)
 (*     Map        the outcome becomes 413 / 400 (mux) resp. 500 (proxy), or the message goes on     *)
 (*     NextReq    the next request of the sequence                                                 *)
+(*     Reload     (request direction) a hot update of the HTTPServer between the first and the      *)
+(*                second request: mux.reload builds a new instance from the new spec (new rules,     *)
+(*                empty route cache); the settings of the scenario's second pair are in force then    *)
+(* A response scenario also says whether the route takes its REQUESTS in as streams (rstream:        *)
+(* clientMaxBodySize -1): the limit of the response does not depend on it.                            *)
 (* The contract (ProxyMsgDefs, Part 4) is stated on what client and backend observe for EACH       *)
 (* request; it does not depend on the history.                                                     *)
 (* Sizes are abstract (limits 3 and 5, default interval [8, 9]); the harness scales them.           *)
@@ -24,35 +29,57 @@ EXTENDS ProxyMsgDefs
 CONSTANTS CodeDefault,    \* DefaultMaxPayloadSize of the code model: any value in [D.lo, D.hi] must do
           HitLimit,       \* "kept": the limit is selected per request (the code); "lost": negative control - a route
                           \* served from the cache has forgotten the limit (FetchPayload(0)), must violate the contract
-          Exempt          \* media type classes whose bodies the code model streams whatever the limit says: {} is the
+          Exempt,         \* media type classes whose bodies the code model streams whatever the limit says: {} is the
                           \* code (limit selection never looks at Content-Type); non-empty: negative control, must
                           \* violate the contract (every wire of the scenario space carries a media type, w.ctype)
+          Defect          \* "none": the code.  Negative controls, each must violate the contract:
+                          \* "stale-reload": a hot update that changes nothing but the server-level limit keeps the
+                          \*                 old instance (and with it the old server-level limit)
+                          \* "coupled":      the response of a request taken in as a stream is handed on as a stream
+                          \*                 when no serverMaxBodySize is configured
 
 D == LimD
 Inner == LimInner
 Outer == LimOuter
 
 VARIABLES dir, inner, outer, w, cache,   \* the scenario (cache: route cache enabled; w.comp: response compression)
+          inner2, outer2,                \* ... the settings after the hot update (= inner, outer: there is none)
+          rstream,                       \* ... (responses) the route takes requests in as streams
+          cur,                           \* 1: the first settings are in force, 2: the hot update has happened
           k, rc,                         \* number of the request in the sequence; content of the route cache
           pc, hit, lim, cl, avail, bad,  \* the request in flight: program counter, route came from the cache, limit in use,
                                          \* announced length, bytes the source delivers, source ends with an error
           read, res                      \* bytes read, result of FetchPayload
 
-vars == <<dir, inner, outer, w, cache, k, rc, pc, hit, lim, cl, avail, bad, read, res>>
-scn  == <<dir, inner, outer, w, cache>>
+vars == <<dir, inner, outer, w, cache, inner2, outer2, rstream, cur, k, rc, pc, hit, lim, cl, avail, bad, read, res>>
+scn  == <<dir, inner, outer, w, cache, inner2, outer2, rstream>>
+
+Updated == <<inner2, outer2>> # <<inner, outer>>
+(* the settings in force *)
+CI == IF cur = 2 THEN inner2 ELSE inner
+CO == IF cur = 2 THEN outer2 ELSE outer
+(* ... and the ones the code model works with *)
+MI == CI
+MO == IF Defect = "stale-reload" /\ cur = 2 /\ inner2 = inner THEN outer ELSE CO
 
 Init == /\ dir \in {"req", "resp"} /\ inner \in Inner /\ outer \in Outer /\ w \in LimWires(dir, inner, outer)
         /\ cache \in (IF dir = "req" THEN BOOLEAN ELSE {FALSE})
+        /\ \E u \in (IF dir = "req" THEN LimUpdates(inner, outer) ELSE {<<inner, outer>>}) : inner2 = u[1] /\ outer2 = u[2]
+        /\ rstream \in (IF dir = "resp" THEN BOOLEAN ELSE {FALSE})
+        /\ (Updated \/ rstream) => (~Short(w) /\ w.ctype = SecondaryCType)
+        /\ cur = 1
         /\ k = 1 /\ rc = "empty"
         /\ pc = "Route" /\ hit = FALSE /\ lim = 0 /\ cl = -1 /\ avail = 0 /\ bad = FALSE /\ read = 0 /\ res = "-"
 
-Go(p) == pc' = p /\ UNCHANGED scn /\ UNCHANGED k
+Go(p) == pc' = p /\ UNCHANGED scn /\ UNCHANGED <<k, cur>>
 
 Route   == /\ pc = "Route" /\ hit' = (cache /\ rc = "route") /\ rc' = (IF cache THEN "route" ELSE rc)
            /\ Go("Select") /\ UNCHANGED <<lim, cl, avail, bad, read, res>>
 Select  == /\ pc = "Select"
            /\ lim' = (IF w.ctype \in Exempt THEN -1
-                      ELSE IF hit /\ HitLimit = "lost" THEN 0 ELSE IF inner # 0 THEN inner ELSE outer)
+                      ELSE IF hit /\ HitLimit = "lost" THEN 0
+                      ELSE IF Defect = "coupled" /\ dir = "resp" /\ rstream /\ MI = 0 /\ MO = 0 THEN -1
+                      ELSE IF MI # 0 THEN MI ELSE MO)
            /\ cl' = (IF w.enc = "cl" THEN w.declared ELSE -1) /\ avail' = w.actual /\ bad' = FALSE
            /\ Go(IF w.comp THEN "Compress" ELSE "Default") /\ UNCHANGED <<rc, hit, read, res>>
 Compress == /\ pc = "Compress" /\ cl' = -1 /\ avail' = avail + LimGz /\ bad' = Short(w)
@@ -72,10 +99,15 @@ Probe   == /\ pc = "Probe" /\ res' = (IF avail - read > 0 THEN "toolarge" ELSE I
            /\ Go("Map") /\ UNCHANGED <<rc, hit, lim, cl, avail, bad, read>>
 Map     == pc = "Map" /\ Go("done") /\ UNCHANGED <<rc, hit, lim, cl, avail, bad, read, res>>
 NextReq == /\ pc = "done" /\ k < LimK /\ k' = k + 1 /\ pc' = "Route"
+           /\ (k = 1 /\ Updated) => cur = 2          \* the hot update comes between the first and the second request
            /\ hit' = FALSE /\ lim' = 0 /\ cl' = -1 /\ avail' = 0 /\ bad' = FALSE /\ read' = 0 /\ res' = "-"
-           /\ UNCHANGED scn /\ UNCHANGED rc
+           /\ UNCHANGED scn /\ UNCHANGED <<rc, cur>>
+(* mux.reload: a new muxInstance built from the new spec takes over - new rules, an empty route cache *)
+Reload  == /\ pc = "done" /\ k = 1 /\ Updated /\ cur = 1
+           /\ cur' = 2 /\ rc' = "empty"
+           /\ UNCHANGED scn /\ UNCHANGED <<k, pc, hit, lim, cl, avail, bad, read, res>>
 
-Next == Route \/ Select \/ Compress \/ Default \/ Stream \/ ByHeader \/ ReadFull \/ Empty \/ ReadLimited \/ Probe \/ Map \/ NextReq
+Next == Route \/ Select \/ Compress \/ Default \/ Stream \/ ByHeader \/ ReadFull \/ Empty \/ ReadLimited \/ Probe \/ Map \/ NextReq \/ Reload
 Spec == Init /\ [][Next]_vars
 
 (* what client / backend observe, from the step machine's result *)
@@ -89,20 +121,21 @@ RespObs ==
       [] res = "stream" -> [status |-> 200, intact |-> ~Short(w), complete |-> ~Short(w), got |-> read, bstatus |-> 200]
       [] OTHER          -> [status |-> 200, intact |-> read = avail /\ ~bad, complete |-> TRUE, got |-> read, bstatus |-> 200]
 
-Done == pc = "done"
+(* (the result of a request is judged in the state it completes in: after Reload the settings have changed) *)
+Done == pc = "done" /\ ~(k = 1 /\ cur = 2)
 (* the property: for every request of the sequence *)
-ReqLimit  == Done /\ dir = "req" => L_ReqContract(inner, outer, D, w, ReqObs)
-RespLimit == Done /\ dir = "resp" => L_RespContract(inner, outer, D, w, RespObs)
+ReqLimit  == Done /\ dir = "req" => L_ReqContract(CI, CO, D, w, ReqObs)
+RespLimit == Done /\ dir = "resp" => L_RespContract(CI, CO, D, w, RespObs)
 (* clause by clause *)
-Oversized413Unforwarded == Done /\ dir = "req" /\ ~Streams(inner, outer) /\ Announced(w) > EffHi(inner, outer, D)
+Oversized413Unforwarded == Done /\ dir = "req" /\ ~Streams(CI, CO) /\ Announced(w) > EffHi(CI, CO, D)
                                => res = "toolarge"
-ExactLimitPasses        == Done /\ dir = "req" /\ ~Streams(inner, outer) /\ ~Short(w) /\ Announced(w) <= EffLo(inner, outer, D)
+ExactLimitPasses        == Done /\ dir = "req" /\ ~Streams(CI, CO) /\ ~Short(w) /\ Announced(w) <= EffLo(CI, CO, D)
                                => res = "ok" /\ read = w.actual
-MinusOneStreams         == Done /\ Streams(inner, outer) => res = "stream"
-BigResponseWithheld     == Done /\ dir = "resp" /\ ~Streams(inner, outer) /\ Announced(w) > EffHi(inner, outer, D)
+MinusOneStreams         == Done /\ Streams(CI, CO) => res = "stream"
+BigResponseWithheld     == Done /\ dir = "resp" /\ ~Streams(CI, CO) /\ Announced(w) > EffHi(CI, CO, D)
                                => res \in {"toolarge", "err"}
-ShortIsAnError          == Done /\ ~Streams(inner, outer) /\ Short(w) => res \in {"toolarge", "err"}
+ShortIsAnError          == Done /\ ~Streams(CI, CO) /\ Short(w) => res \in {"toolarge", "err"}
 (* the step machine and the function used by the vector generator agree *)
-Composed == Done => /\ dir = "req" => ReqObs = L_ReqModel(inner, outer, CodeDefault, w)
-                    /\ dir = "resp" => RespObs = L_RespModel(inner, outer, CodeDefault, w)
+Composed == Done => /\ dir = "req" => ReqObs = L_ReqModel(CI, CO, CodeDefault, w)
+                    /\ dir = "resp" => RespObs = L_RespModel(CI, CO, CodeDefault, w)
 =============================================================================
